@@ -1,4 +1,300 @@
-//! Failing-input search: the property statements evaluated directly on the implementation.
-pub fn main(_args: &[String]) {
-    eprintln!("search: not built yet");
+//! Failing-input search: the property statements evaluated directly on the implementation
+//! (tolerances exactly as written in properties.jsonl).  Prints one JSON object per line:
+//!   {"kind":"violation","site":..,"what":..,"case":[request lines],"observed":..,"required":..}
+//!   {"kind":"stats","evaluations":N,...}
+use crate::gen::*;
+use crate::proto::*;
+use crate::rng::Sm;
+use serde_json::json;
+use std::collections::BTreeMap;
+
+pub struct Ctx {
+    pub evals: u64,
+    pub nviol: u64,
+    pub sites: BTreeMap<String, u64>,
+    pub thorough: bool,
+    pub r: Sm,
+    pub sigs: Vec<serde_json::Value>,
+}
+
+pub fn req(id: &str, a: &[Arg]) -> String {
+    format!("{} {}", id, a.iter().map(|x| x.render()).collect::<Vec<_>>().join(" "))
+}
+
+impl Ctx {
+    pub fn call(&mut self, id: &str, a: &[Arg]) -> String {
+        self.evals += 1;
+        crate::call_timeout(id, a, 10_000)
+    }
+    pub fn callf(&mut self, id: &str, a: &[Arg]) -> Option<f64> {
+        reply_f(&self.call(id, a))
+    }
+    pub fn violation(&mut self, site: &str, what: &str, case: Vec<String>, observed: String, required: &str) {
+        let n = self.sites.entry(site.to_string()).or_default();
+        *n += 1;
+        self.nviol += 1;
+        if *n <= 3 {
+            println!("{}", json!({"kind":"violation","site":site,"what":what,"case":case,"observed":observed,"required":required}));
+        }
+    }
+    pub fn families(&self, method: &str) -> Vec<(String, Vec<String>, Vec<String>, Vec<String>)> {
+        // (family, ctor types, ctor names, method param types)
+        let mut v = vec![];
+        for s in &self.sigs {
+            if s["method"].as_str() == Some(method) && s["self"].is_string() {
+                let fam = s["self"].as_str().unwrap().to_string();
+                let strs = |x: &serde_json::Value| -> Vec<String> { x.as_array().map(|a| a.iter().map(|y| y.as_str().unwrap_or("").to_string()).collect()).unwrap_or_default() };
+                if strs(&s["ctor"]).is_empty() {
+                    continue;
+                }
+                v.push((fam, strs(&s["ctor"]), strs(&s["ctor_names"]), strs(&s["params"])));
+            }
+        }
+        v
+    }
+    pub fn has(&self, id: &str) -> bool {
+        self.sigs.iter().any(|s| s["id"].as_str() == Some(id))
+    }
+}
+
+/// coarse class of an argument, part of a finding's site so that a different failure of the same
+/// function is still reported
+pub fn xclass(a: &Arg) -> String {
+    match a {
+        Arg::F(x) => {
+            let x = *x;
+            if x.is_nan() {
+                "nan".into()
+            } else if x == f64::INFINITY {
+                "+inf".into()
+            } else if x == f64::NEG_INFINITY {
+                "-inf".into()
+            } else if x == 0.0 {
+                "zero".into()
+            } else if x.abs() < f64::MIN_POSITIVE {
+                "subnormal".into()
+            } else if x.abs() >= 1e300 {
+                "huge".into()
+            } else if x.abs() < 1e-300 {
+                "tiny".into()
+            } else {
+                "ordinary".into()
+            }
+        }
+        Arg::I(k) => {
+            if *k >= (1i128 << 31) {
+                "k>=2^31".into()
+            } else {
+                "int".into()
+            }
+        }
+        _ => "other".into(),
+    }
+}
+/// tags for special constructor parameters (infinite, or probability 0/1)
+pub fn ptags(t: &[Arg], names: &[String]) -> String {
+    let mut v = vec![];
+    for (a, n) in t.iter().zip(names.iter()) {
+        if let Arg::F(x) = a {
+            if x.is_infinite() {
+                v.push(format!("{}=inf", n));
+            } else if n == "p" && (*x == 0.0 || *x == 1.0) {
+                v.push(format!("p={}", x));
+            }
+        }
+    }
+    if v.is_empty() {
+        String::new()
+    } else {
+        format!(" [{}]", v.join(","))
+    }
+}
+
+fn fmt(x: f64) -> String {
+    format!("{:e} (0x{:016x})", x, x.to_bits())
+}
+
+/// constructed core-domain parameter tuples of a family
+fn tuples(cx: &mut Ctx, fam: &str, ct: &[String], cn: &[String], n: usize) -> Vec<Vec<Arg>> {
+    tuples_ext(cx, fam, ct, cn, n).into_iter().map(|x| x.0).collect()
+}
+/// (tuple, generated from the extended domain?)
+fn tuples_ext(cx: &mut Ctx, fam: &str, ct: &[String], cn: &[String], n: usize) -> Vec<(Vec<Arg>, bool)> {
+    let mut out = vec![];
+    let mut tries = 0;
+    while out.len() < n && tries < 4 * n {
+        tries += 1;
+        let ext = cx.thorough && tries % 2 == 1;
+        let t = ctor_tuple(&mut cx.r, fam, ct, cn, ext, false);
+        if cx.call(&format!("{}::new", fam), &t).starts_with("ok") {
+            out.push((t, ext));
+        }
+    }
+    out
+}
+
+fn arg_of(t: &str, xf: f64, xi: i128) -> Arg {
+    if t == "f" {
+        Arg::F(xf)
+    } else {
+        Arg::I(xi)
+    }
+}
+
+/// C01: cdf is a proper distribution function.  C02: sf is its complement.
+fn c01_c02(cx: &mut Ctx, which: &str) {
+    let n_t = if cx.thorough { 60 } else { 10 };
+    for (fam, ct, cn, pt) in cx.families("cdf") {
+        let is_disc = pt.get(0).map(|t| t != "f").unwrap_or(false);
+        let signed = pt.get(0).map(|t| t.starts_with("i:i")).unwrap_or(false);
+        let id_cdf = format!("{}::cdf", fam);
+        let id_sf = format!("{}::sf", fam);
+        for (t, ext) in tuples_ext(cx, &fam, &ct, &cn, n_t) {
+            let fam_site = if ext { format!("[ext] {}", fam) } else { fam.clone() };
+            let mn = cx.call(&format!("{}::min", fam), &t);
+            let mx = cx.call(&format!("{}::max", fam), &t);
+            // argument list (sorted)
+            let mut pts: Vec<(f64, Arg)> = vec![];
+            if is_disc {
+                let mut ks = x_pool_i(&mut cx.r, &fam, &t, signed);
+                if let (Some(a), Some(b)) = (reply_i(&mn), reply_i(&mx)) {
+                    let hi = b.min(a + 5000);
+                    let step = ((hi - a) / 200).max(1);
+                    let mut k = a - 2;
+                    while k <= hi + 2 {
+                        if signed || k >= 0 {
+                            ks.push(k);
+                        }
+                        k += if k < a + 40 || k > hi - 40 { 1 } else { step };
+                    }
+                }
+                ks.sort();
+                ks.dedup();
+                for k in ks {
+                    pts.push((k as f64, Arg::I(k)));
+                }
+            } else {
+                let mut inv_hangs = false;
+                let mut xs = x_pool_f(&mut cx.r, &fam, &t, &mut inv_hangs);
+                xs.retain(|x| !x.is_nan() && (x.is_infinite() || *x == 0.0 || x.abs() >= f64::MIN_POSITIVE));
+                xs.sort_by(|a, b| a.partial_cmp(b).unwrap());
+                xs.dedup();
+                for x in xs {
+                    pts.push((x, Arg::F(x)));
+                }
+            }
+            let mut prev: Option<(f64, f64, Arg)> = None; // (x, cdf, arg)
+            let mut prev_sf: Option<(f64, f64, Arg)> = None;
+            for (x, a) in pts {
+                let mut args = t.clone();
+                args.push(a.clone());
+                let rc = cx.call(&id_cdf, &args);
+                let c = match reply_f(&rc) {
+                    Some(c) => c,
+                    None => {
+                        if which == "C01" {
+                            cx.violation(&format!("{}::cdf {} @x={}{}", fam_site, rc, xclass(&a), ptags(&t, &cn)), "cdf did not return a number", vec![req(&id_cdf, &args)], rc.clone(), "a number in [0,1]");
+                        }
+                        continue;
+                    }
+                };
+                if which == "C01" {
+                    if c.is_nan() || c < 0.0 || c > 1.0 {
+                        let kind = if c.is_nan() { "NaN" } else if c > 1.0 { ">1" } else { "<0" };
+                        cx.violation(&format!("{}::cdf {}", fam_site, kind), "cdf outside [0,1]", vec![req(&id_cdf, &args)], fmt(c), "0 <= cdf <= 1, not NaN");
+                    }
+                    if let Some((px, pc, pa)) = &prev {
+                        if *px < x && c < pc - 1e-11 {
+                            let mut a0 = t.clone();
+                            a0.push(pa.clone());
+                            cx.violation(&format!("{}::cdf decreasing", fam_site), "cdf decreases by more than 1e-11", vec![req(&id_cdf, &a0), req(&id_cdf, &args)], format!("{} then {}", fmt(*pc), fmt(c)), "cdf(x) <= cdf(y) + 1e-11 for x < y");
+                        }
+                    }
+                    // support ends
+                    let (mnf, mxf) = (reply_f(&mn).or(reply_i(&mn).map(|v| v as f64)), reply_f(&mx).or(reply_i(&mx).map(|v| v as f64)));
+                    if let Some(m) = mnf {
+                        if x < m && c != 0.0 {
+                            cx.violation(&format!("{}::cdf below-min", fam_site), "cdf nonzero below the support minimum", vec![req(&id_cdf, &args)], fmt(c), "cdf(x) = 0 for x < min");
+                        }
+                    }
+                    if let Some(m) = mxf {
+                        if x >= m && c != 1.0 {
+                            cx.violation(&format!("{}::cdf at-max", fam_site), "cdf not 1 at/above the support maximum", vec![req(&id_cdf, &args)], fmt(c), "cdf(x) = 1 for x >= max");
+                        }
+                    }
+                    if !c.is_nan() {
+                        prev = Some((x, c, a.clone()));
+                    }
+                } else {
+                    let rs = cx.call(&id_sf, &args);
+                    let s = match reply_f(&rs) {
+                        Some(s) => s,
+                        None => {
+                            cx.violation(&format!("{}::sf {} @x={}{}", fam_site, rs, xclass(&a), ptags(&t, &cn)), "sf did not return a number", vec![req(&id_sf, &args)], rs.clone(), "a number in [0,1]");
+                            continue;
+                        }
+                    };
+                    if s.is_nan() || s < 0.0 || s > 1.0 {
+                        let kind = if s.is_nan() { "NaN" } else if s > 1.0 { ">1" } else { "<0" };
+                        cx.violation(&format!("{}::sf {}", fam_site, kind), "sf outside [0,1]", vec![req(&id_sf, &args)], fmt(s), "0 <= sf <= 1, not NaN");
+                    }
+                    if let Some((px, ps, pa)) = &prev_sf {
+                        if *px < x && s > ps + 1e-11 {
+                            let mut a0 = t.clone();
+                            a0.push(pa.clone());
+                            cx.violation(&format!("{}::sf increasing", fam_site), "sf increases by more than 1e-11", vec![req(&id_sf, &a0), req(&id_sf, &args)], format!("{} then {}", fmt(*ps), fmt(s)), "sf(x) >= sf(y) - 1e-11 for x < y");
+                        }
+                    }
+                    // complement identity: not asserted at the ULP neighbours of a finite end point (property text);
+                    // asserted at quantile levels 1e-6..1-1e-6, at/outside the end points and at every lattice point
+                    let in_levels = c >= 1e-6 && c <= 1.0 - 1e-6;
+                    let at_ends = c == 0.0 || c == 1.0;
+                    let (mnf, mxf) = (reply_f(&mn), reply_f(&mx));
+                    let near = |m: Option<f64>| m.map(|m| m.is_finite() && x != m && (x == next_up(m) || x == next_down(m) || x == next_up(next_up(m)) || x == next_down(next_down(m)))).unwrap_or(false);
+                    let ulp_neighbour = !is_disc && (near(mnf) || near(mxf));
+                    let small = if !is_disc && x.abs() < 1e-8 && x != 0.0 { " @|x|<1e-8" } else if !is_disc && x.abs() > 1e8 { " @|x|>1e8" } else { "" };
+                    if (in_levels || at_ends || is_disc) && !ulp_neighbour && (c + s - 1.0).abs() > 1e-8 {
+                        cx.violation(&format!("{}::sf complement{}", fam_site, small), "cdf + sf differs from 1 by more than 1e-8", vec![req(&id_cdf, &args), req(&id_sf, &args)], format!("cdf={} sf={}", fmt(c), fmt(s)), "|cdf(x)+sf(x)-1| <= 1e-8");
+                    }
+                    if !s.is_nan() {
+                        prev_sf = Some((x, s, a.clone()));
+                    }
+                }
+            }
+            let _ = arg_of;
+        }
+    }
+}
+
+pub fn main(args: &[String]) {
+    std::panic::set_hook(Box::new(|_| {}));
+    let prop = args.get(0).map(|s| s.as_str()).unwrap_or("");
+    if prop == "--replay" {
+        return;
+    }
+    let tier = args.get(1).map(|s| s.as_str()).unwrap_or("quick");
+    let seed: u64 = args.get(2).and_then(|s| s.parse().ok()).unwrap_or(1);
+    let sig_path = std::env::var("VERIF_SIGS").unwrap_or("/verif/lean/Statrs/Gen/signatures.json".into());
+    let sigs: Vec<serde_json::Value> = std::fs::read_to_string(&sig_path).ok().and_then(|s| serde_json::from_str(&s).ok()).unwrap_or_default();
+    let mut cx = Ctx { evals: 0, nviol: 0, sites: BTreeMap::new(), thorough: tier == "thorough", r: Sm::new(seed ^ 0x5ea4c4), sigs };
+    match prop {
+        "C01" => c01_c02(&mut cx, "C01"),
+        "C02" => c01_c02(&mut cx, "C02"),
+        _ => {}
+    }
+    println!("{}", json!({"kind":"stats","evaluations":cx.evals,"violations":cx.nviol,"sites":cx.sites,
+        "hangs": crate::HANGS.lock().unwrap().clone()}));
+    std::process::exit(0);
+}
+
+/// `harness replay <prop> <json list of request lines>`: re-evaluate the requests of a recorded case
+pub fn replay(args: &[String]) {
+    std::panic::set_hook(Box::new(|_| {}));
+    let case: Vec<String> = args.get(1).and_then(|s| serde_json::from_str(s).ok()).unwrap_or_default();
+    for l in case {
+        if let Some((id, a)) = parse_line(&l) {
+            println!("{}  =>  {}", l, crate::call_timeout(&id, &a, 10_000));
+        }
+    }
+    std::process::exit(0);
 }
